@@ -57,6 +57,7 @@ F_LEAFLESS = "C06-leafless-foreign"
 F_UNSELECTED = "C06-unselected-section"
 F_DICTKW = "C06-dict-kwargs"
 F_SCALARGROUP = "C06-scalar-for-group"
+F_CPONLY = "C06-classpath-sibling-misnamed"
 
 NAMES = ["alpha", "beta", "gamma", "delta", "eps", "zeta", "eta", "theta", "iota", "kappa", "lam", "mu", "nu", "xi", "omi", "rho",
          "sigma", "tau", "ups", "phi", "chi", "psi", "omega", "aleph", "beth", "gimel", "dalet", "vav"]
@@ -121,7 +122,7 @@ class SpecGen:
             elif r < 0.65:
                 node = self.group(ctx, depth)
             elif r < 0.82:
-                node = self.classarg(depth)
+                node = self.classarg(depth, ctx)
             else:
                 node = self.listof(depth)
             out.append([name, node])
@@ -137,6 +138,8 @@ class SpecGen:
             style = rng.choice(["dotted", "dataclass", "class", "inner"])
         elif ctx == "dotted":
             style = "dotted"
+        elif ctx == "inner":
+            style = rng.choice(["dataclass", "class", "inner"])      # an embedded parser may hold class groups and embed another parser
         else:
             style = "dataclass"
         inner_ctx = {"dotted": "dotted", "inner": "inner", "dataclass": "sig", "class": "sig"}[style]
@@ -145,13 +148,22 @@ class SpecGen:
             node["cls"] = self.cls("DC" if style == "dataclass" else "PG")
         return node
 
-    def classarg(self, depth):
+    def classarg(self, depth, ctx="sig"):
+        """`concrete`: the base type is itself instantiable (first entry of `classes`): a value may omit class_path.
+        `via` = "subclass_group": declared with add_subclass_arguments(Base, key, required=...) - the requirement then lives in
+        parser.required_args only (no action flag); possible where the container is a parser (top level, subcommand, embedded parser)"""
         rng = self.rng
         base = self.cls("Base")
         classes = []
+        concrete = rng.random() < 0.5
+        if concrete:
+            classes.append([base, self.fields("sig", depth + 1, 0, 2)])
         for _ in range(rng.randint(1, 2)):
             classes.append([self.cls("Sub"), self.fields("sig", depth + 1, 0, 3)])
-        return {"k": "class", "req": rng.random() < 0.4, "base": base, "classes": classes}
+        node = {"k": "class", "req": rng.random() < (0.6 if ctx == "inner" else 0.4), "base": base, "classes": classes, "concrete": concrete}
+        if ctx in ("parser", "inner") and rng.random() < (0.7 if ctx == "inner" else 0.35):
+            node["via"] = "subclass_group"
+        return node
 
     def listof(self, depth):
         rng = self.rng
@@ -205,8 +217,14 @@ def emit_node(node, out):
         elif node["style"] == "class":
             out.append(plain_class(node["cls"], None, node["fields"]))
     elif k == "class":
-        out.append("class %s(abc.ABC):\n    @abc.abstractmethod\n    def run(self):\n        pass" % node["base"])
+        if node.get("concrete"):
+            emit_classes(node["classes"][0][1], out)
+            out.append(plain_class(node["base"], None, node["classes"][0][1]) + "\n    def run(self):\n        pass")
+        else:
+            out.append("class %s(abc.ABC):\n    @abc.abstractmethod\n    def run(self):\n        pass" % node["base"])
         for cname, cfs in node["classes"]:
+            if cname == node["base"]:
+                continue
             emit_classes(cfs, out)
             out.append(plain_class(cname, node["base"], cfs))
     elif k == "list":
@@ -282,6 +300,8 @@ def add_fields(parser, fields, mod, prefix=""):
                 parser.add_argument(opt, type=py_type(node, mod), required=True)
             else:
                 parser.add_argument(opt, type=py_type(node, mod), default=copy.deepcopy(node["def"]))
+        elif k == "class" and node.get("via") == "subclass_group":
+            parser.add_subclass_arguments(getattr(mod, node["base"]), prefix + name, required=bool(node["req"]))
         elif k in ("class", "list"):
             if node["req"]:
                 parser.add_argument(opt, type=py_type(node, mod), required=True)
@@ -371,6 +391,12 @@ def gen_class_value(rng, node, modname):
     cname, cfs = rng.choice(node["classes"])
     path = modname + "." + cname
     anyreq = any(has_req(n) for _, n in cfs)
+    if node.get("concrete") and cname == node["base"] and rng.random() < 0.6:
+        # the class is implied by the (concrete) base type: no class_path
+        ia = gen_config(rng, cfs, modname)
+        if ia and not leafless(ia) and not ({"class_path", "init_args", "dict_kwargs"} & set(ia)) and rng.random() < 0.3:
+            return ia                       # the mapping itself is the init_args
+        return {"init_args": ia}
     if not anyreq and rng.random() < 0.15:
         return path
     if not anyreq and rng.random() < 0.15:
@@ -417,6 +443,8 @@ def sections_present(fields, kvs):
 
 
 def class_fields(node, modname, path):
+    if path is None and node.get("concrete"):
+        return node["classes"][0][1]          # implicit class_path of a concrete base type
     for cname, cfs in node["classes"]:
         if path == modname + "." + cname:
             return cfs
@@ -491,7 +519,15 @@ def class_positions(node, v, modname, path):
     cfs = class_fields(node, modname, v.get("class_path"))
     if cfs is None:
         return
-    yield ("foreign", path, "classdict")
+    if not ({"class_path", "init_args", "dict_kwargs"} & set(v)):
+        yield ("foreign", path, "bareinit")     # no class_path and no init_args: the mapping itself is the init_args of the base
+        return
+    if node.get("concrete") and "class_path" in v and not ({"init_args", "dict_kwargs"} & set(v)):
+        # concrete base type, only class_path given: with a foreign key added the code takes the WHOLE mapping for the init_args of the base
+        # and reports 'class_path' as the unexpected key (open finding C06-classpath-sibling-misnamed)
+        yield ("foreign", path, "classdict-cponly")
+    else:
+        yield ("foreign", path, "classdict")    # next to class_path / init_args (a specification with or without class_path)
     if "dict_kwargs" not in v:
         yield ("foreign", path + ["dict_kwargs"], "dict_kwargs")
     if isinstance(v.get("init_args"), dict):
@@ -548,7 +584,7 @@ def mutations_of(rng, fields, cfg, modname, full):
             if extra == "normal" and (full or rng.random() < 0.3):
                 muts.append({"kind": "foreign", "path": path, "key": FOREIGN, "value": rng.choice(LEAFLESS_VALUES), "cls": "leafless"})
             # typos of the DEFINED sibling keys: truncations (proper string prefixes: `epoch` for `epochs`) and extensions (`epochs2`, `epochs_`)
-            if extra in ("normal", "classdict"):
+            if extra in ("normal", "classdict", "classdict-cponly", "bareinit"):
                 for name, variant in typo_names(rng, sibling_names(fields, cfg, modname, path, extra), full):
                     muts.append({"kind": "foreign", "path": path, "key": name, "value": copy.deepcopy(rng.choice([1, "w", [1], None, 2.5])),
                                  "cls": extra, "variant": variant})
@@ -573,7 +609,7 @@ def mutations_of(rng, fields, cfg, modname, full):
 
 def sibling_names(fields, cfg, modname, path, cls):
     """the keys defined at a mapping position (arguments, groups, the subcommand key and names; the three keys of a class specification)"""
-    if cls == "classdict":
+    if cls in ("classdict", "classdict-cponly"):
         return ["class_path", "init_args", "dict_kwargs"]
     try:
         lf = level_fields(fields, cfg, modname, path)
@@ -994,7 +1030,8 @@ def wire_node(node, modname):
     if k == "group":
         return {"k": "group", "whole": node["whole"], "fields": wire_fields(node["fields"], modname)}
     if k == "class":
-        return {"k": "class", "req": node["req"], "classes": [[modname + "." + c, wire_fields(f, modname)] for c, f in node["classes"]]}
+        return {"k": "class", "req": node["req"], "imp": (modname + "." + node["base"]) if node.get("concrete") else None,
+                "classes": [[modname + "." + c, wire_fields(f, modname)] for c, f in node["classes"]]}
     if k == "list":
         return {"k": "list", "req": node["req"], "item": wire_node(node["item"], modname)}
     if k == "sub":
@@ -1087,6 +1124,8 @@ def finding_of(mut):
             return F_UNSELECTED
         if mut.get("cls") == "dict_kwargs":
             return F_DICTKW
+        if mut.get("cls") == "classdict-cponly":
+            return F_CPONLY
     if mut["kind"] == "scalar-group":
         return F_SCALARGROUP
     return None
@@ -1119,6 +1158,8 @@ def compare_model(mut, mres, res):
         return "model rejects (%s %s), code raises %s" % (mres.get("kind"), mres.get("rel"), res[1])
     if mut is not None and (mut["kind"] == "remove-branch" or "below" in mut):
         return None        # several faults at once: the order of reports is not modelled
+    if mut is not None and mut.get("cls") == "classdict-cponly":
+        return None        # rejected by both; the code names 'class_path' instead (open finding), the model names the foreign key
     if mres["kind"] in ("unknown", "required", "nosub"):
         segs = mres["rel"].split(".") if mres["rel"] else []
         segs = parser_relative([s for s in segs])
@@ -1245,7 +1286,7 @@ def process_case(ctx: Ctx, case: Case, muts, cfgs, mt, model, channels_per_mut, 
         diff = [x for x in rt if x not in st][:3], [x for x in st if x not in rt][:3]
         ctx.tie_break("action table of the real parser differs from the model's table (dests / option strings / required set)",
                       json.dumps({"real_only": diff[0], "model_only": diff[1], "spec": case.ph(case.fields)}, default=repr)[:1800])
-        return []
+        # keep going: the mutations below look for a concrete input on which the difference shows
     all_muts = [None] + muts
     argv_cases = []
     for mut, cfg, mres in zip(all_muts, cfgs, model):
@@ -1285,7 +1326,7 @@ def process_case(ctx: Ctx, case: Case, muts, cfgs, mt, model, channels_per_mut, 
                 if mut is not None:
                     ctx.nontrivial(json.dumps([case.ph(case.fields), case.ph(mut), ch], sort_keys=True, default=repr))
                 continue
-            if fid is not None and ctx.is_open(fid) and dev == "accepted":
+            if fid is not None and ctx.is_open(fid) and (dev == "accepted" if fid != F_CPONLY else dev.startswith("the error does not name")):
                 ctx.known(fid, known_text(fid, mut))
                 continue
             what = ("valid configuration: " if mut is None else "mutation %s at %s: " % (mut["kind"], ".".join(map(str, mut["path"])))) + dev
@@ -1346,6 +1387,7 @@ def known_text(fid, mut):
         F_UNSELECTED: "keys inside the section of a non-selected subcommand are discarded without validation",
         F_DICTKW: "keys under dict_kwargs of a class specification are accepted for a class without **kwargs",
         F_SCALARGROUP: "a non-mapping value at a group key whose fields are all optional is accepted (DESIGN section 7 row 8)",
+        F_CPONLY: "concrete base type: {class_path: C, <foreign key>} is rejected with \"Key 'class_path' is not expected\" - the foreign key is not named",
     }[fid]
 
 
@@ -1436,6 +1478,8 @@ def run(ctx: Ctx):
         res = run_channel(ctx.rng, w.get("channel", "object"), case.parser, case.fields, mutate(case.cfg, mut) if mut else case.cfg, tmpdir)
         ctx.count()
         seen = {"ok": "accepted", "err": "rejected", "exc": "exception"}[res[0]] if res is not None else None
+        if seen == "rejected" and w.get("expect") == "misnamed":
+            seen = "misnamed" if oracle_judge(mut, res) is not None else "rejected"
         if seen == w.get("expect", "accepted"):
             ctx.known(f["id"], f["description"])
         else:
